@@ -79,7 +79,7 @@ var specs = map[string]spec{
 		Level:     "model_checking",
 		Rule:      "a state is a distinct bundle (body x declarations x mutation); a transition is one compilation (plus one probed render when accepted); every case is non-trivial (a verdict accept/reject is compared)",
 		Bounds: map[string]string{
-			"quick":    "all C02 bodies unmutated; mutations (9 site kinds at every site, declaration drops, unused param, three forms of mixed soydoc/header declarations) on every sixth body",
+			"quick":    "all C02 bodies unmutated; mutations (9 site kinds at every site, declaration drops, unused param, three forms of mixed soydoc/header declarations) on every seventh body",
 			"thorough": "mutations on every body; nested blocks over inner lists of <=2 leaves",
 		},
 		Assumptions: commonAssumptions, Plain: true, QuickStride: 1, ThoroughStride: 2, QuickDeadline: 420, ThoroughDeadline: 3000,
